@@ -176,4 +176,51 @@ theorem C18_groupby_order (gs : List SKey) :
 example : ∀ p ∈ groupIndices [.int 2, .int 1, .int 2, .int 2, .int 1], p.2.Pairwise (· < ·) := by
   decide
 
+/-! ### the specification determines the order -/
+
+/-- The sort order is DETERMINED by its specification: any arrangement `o` of the positions
+    `0, …, n-1` along which the sort keys are non-decreasing and ties appear in index order is the
+    order `sort(key_fn)` produces (so `C18_sort_perm`, `C18_sort_monotone` and `C18_sort_stable_ties`
+    together leave no freedom). -/
+theorem C18_sort_unique {κ : Type} [Inhabited κ] (lt : κ → κ → Bool)
+    (irrefl : ∀ a, lt a a = false)
+    (trans : ∀ a b c, lt a b = true → lt b c = true → lt a c = true)
+    (total : ∀ a b, a ≠ b → lt a b = true ∨ lt b a = true) (ks : List κ) (o : List Nat)
+    (hperm : o.Perm (List.range ks.length))
+    (hsorted : o.Pairwise (fun i j => lt (ks[j]!) (ks[i]!) = false ∧ (ks[i]! = ks[j]! → i < j))) :
+    o = sortOrderBy lt ks false := by
+  refine List.Perm.eq_of_pairwise ?_ hsorted (sortOrderBy_sorted ⟨irrefl, trans, total⟩ ks)
+    (hperm.trans (sortOrderBy_perm lt ks false).symm)
+  rintro i j _ _ ⟨h1, h2⟩ ⟨h3, h4⟩
+  by_cases he : ks[i]! = ks[j]!
+  · have := h2 he; have := h4 he.symm; omega
+  · rcases total _ _ he with h | h
+    · rw [h] at h3; cases h3
+    · rw [h] at h1; cases h1
+
+/-- The same for `reverse=True`. -/
+theorem C18_sort_unique_reverse {κ : Type} [Inhabited κ] (lt : κ → κ → Bool)
+    (irrefl : ∀ a, lt a a = false)
+    (trans : ∀ a b c, lt a b = true → lt b c = true → lt a c = true)
+    (total : ∀ a b, a ≠ b → lt a b = true ∨ lt b a = true) (ks : List κ) (o : List Nat)
+    (hperm : o.Perm (List.range ks.length))
+    (hsorted : o.Pairwise (fun i j => lt (ks[i]!) (ks[j]!) = false ∧ (ks[i]! = ks[j]! → j < i))) :
+    o = sortOrderBy lt ks true := by
+  refine List.Perm.eq_of_pairwise ?_ hsorted (sortOrderBy_sorted_reverse ⟨irrefl, trans, total⟩ ks)
+    (hperm.trans (sortOrderBy_perm lt ks true).symm)
+  rintro i j _ _ ⟨h1, h2⟩ ⟨h3, h4⟩
+  by_cases he : ks[i]! = ks[j]!
+  · have := h2 he; have := h4 he.symm; omega
+  · rcases total _ _ he with h | h
+    · rw [h] at h1; cases h1
+    · rw [h] at h3; cases h3
+
+-- the hypotheses are satisfiable: the order of the running example meets them
+example : ([1, 3, 2, 0] : List Nat).Perm (List.range [3, 1, 2, 1].length) ∧
+    ([1, 3, 2, 0] : List Nat).Pairwise (fun i j => intLt (([3, 1, 2, 1] : List Int)[j]!) (([3, 1, 2, 1] : List Int)[i]!) = false
+      ∧ ((([3, 1, 2, 1] : List Int)[i]!) = (([3, 1, 2, 1] : List Int)[j]!) → i < j)) := by
+  constructor
+  · decide
+  · simp [intLt]
+
 end LazyDs
